@@ -216,6 +216,170 @@ def _hoist_walrus(tree):
     ast.fix_missing_locations(tree)
 
 
+def _normalise_temporaries(tree):
+    """Normal form for three purely syntactic variations (applied when a
+    module is loaded, so every rule sees one shape):
+      ``x = E; return x``            -> ``return E``
+      ``c = E; if c: ...``           -> ``if E: ...``
+      ``while True: if not C: break; body`` -> ``while C: body``
+    when the temporary is assigned once and used exactly there."""
+    for f in ast.walk(tree):
+        if not isinstance(f, ast.FunctionDef):
+            continue
+        loads, stores = {}, {}
+        for n in ast.walk(f):
+            if isinstance(n, ast.Name):
+                d = loads if isinstance(n.ctx, ast.Load) else stores
+                d[n.id] = d.get(n.id, 0) + 1
+        params = {a.arg for a in f.args.posonlyargs + f.args.args +
+                  f.args.kwonlyargs}
+
+        def temp(name):
+            return loads.get(name, 0) == 1 and stores.get(name, 0) == 1 \
+                and name not in params
+
+        def fix(stmts):
+            out = []
+            i = 0
+            while i < len(stmts):
+                st = stmts[i]
+                for fld in ('body', 'orelse', 'finalbody'):
+                    if isinstance(getattr(st, fld, None), list):
+                        setattr(st, fld, fix(getattr(st, fld)))
+                for h in getattr(st, 'handlers', []) or []:
+                    h.body = fix(h.body)
+                nxt = stmts[i + 1] if i + 1 < len(stmts) else None
+                if isinstance(st, ast.Assign) and len(st.targets) == 1 and \
+                        isinstance(st.targets[0], ast.Name) and \
+                        temp(st.targets[0].id) and nxt is not None:
+                    nm = st.targets[0].id
+                    if isinstance(nxt, ast.Return) and isinstance(
+                            nxt.value, ast.Name) and nxt.value.id == nm:
+                        nxt.value = st.value
+                        i += 1
+                        continue
+                    if isinstance(nxt, ast.If):
+                        t = nxt.test
+                        if isinstance(t, ast.Name) and t.id == nm:
+                            nxt.test = st.value
+                            i += 1
+                            continue
+                        if isinstance(t, ast.UnaryOp) and isinstance(
+                                t.op, ast.Not) and isinstance(
+                                    t.operand, ast.Name) and \
+                                t.operand.id == nm:
+                            t.operand = st.value
+                            i += 1
+                            continue
+                if isinstance(st, ast.While) and isinstance(
+                        st.test, ast.Constant) and st.test.value is True \
+                        and not st.orelse and st.body and isinstance(
+                            st.body[0], ast.If) and not st.body[0].orelse \
+                        and len(st.body[0].body) == 1 and isinstance(
+                            st.body[0].body[0], ast.Break):
+                    t = st.body[0].test
+                    if isinstance(t, ast.UnaryOp) and isinstance(
+                            t.op, ast.Not):
+                        st.test = t.operand
+                    else:
+                        st.test = ast.copy_location(
+                            ast.UnaryOp(op=ast.Not(), operand=t), t)
+                    st.body = st.body[1:] or [ast.copy_location(
+                        ast.Pass(), st)]
+                out.append(st)
+                i += 1
+            return out
+        f.body = fix(f.body)
+    ast.fix_missing_locations(tree)
+
+
+def _inline_attr_aliases(tree):
+    """``x = self._attr`` with x bound once and ``_attr`` only ever rebound in
+    a constructor: reads of x are reads of the attribute (a maintainer's
+    local alias, e.g. ``counts = self._build_dir_counts``).  Also the
+    negated comparisons ``not a in b`` / ``not a is b`` / ``not a == b`` are
+    written in their canonical single-operator form."""
+    import copy as _copy
+
+    class NC(ast.NodeTransformer):
+        MAP = {ast.In: ast.NotIn, ast.Is: ast.IsNot, ast.Eq: ast.NotEq,
+               ast.NotIn: ast.In, ast.IsNot: ast.Is, ast.NotEq: ast.Eq}
+
+        def visit_UnaryOp(self, n):
+            self.generic_visit(n)
+            if isinstance(n.op, ast.Not) and isinstance(
+                    n.operand, ast.Compare) and len(n.operand.ops) == 1 and \
+                    type(n.operand.ops[0]) in self.MAP:
+                c = n.operand
+                return ast.copy_location(ast.Compare(
+                    left=c.left, ops=[self.MAP[type(c.ops[0])]()],
+                    comparators=c.comparators), n)
+            return n
+    for f in ast.walk(tree):
+        if isinstance(f, ast.FunctionDef):
+            f.body = [NC().visit(b) for b in f.body]
+    rebound = set()
+    for c in ast.walk(tree):
+        if isinstance(c, ast.ClassDef):
+            for m in c.body:
+                if isinstance(m, ast.FunctionDef) and m.name != '__init__':
+                    for x in ast.walk(m):
+                        if isinstance(x, ast.Attribute) and isinstance(
+                                x.ctx, (ast.Store, ast.Del)):
+                            rebound.add(x.attr)
+    for x in ast.walk(tree):
+        if isinstance(x, ast.FunctionDef) and x.name != '__init__':
+            pass
+    for c in ast.walk(tree):
+        if not isinstance(c, ast.ClassDef):
+            continue
+        for m in c.body:
+            if not isinstance(m, ast.FunctionDef) or not m.args.args or \
+                    m.name == '__init__':
+                continue
+            self_name = m.args.args[0].arg
+            stores = {}
+            for n in ast.walk(m):
+                if isinstance(n, ast.Name) and isinstance(
+                        n.ctx, (ast.Store, ast.Del)):
+                    stores[n.id] = stores.get(n.id, 0) + 1
+            params = {a.arg for a in m.args.posonlyargs + m.args.args +
+                      m.args.kwonlyargs}
+            alias = {}
+            for n in ast.walk(m):
+                if isinstance(n, ast.Assign) and len(n.targets) == 1 and \
+                        isinstance(n.targets[0], ast.Name) and isinstance(
+                            n.value, ast.Attribute) and isinstance(
+                                n.value.value, ast.Name) and \
+                        n.value.value.id == self_name and \
+                        n.value.attr not in rebound and \
+                        stores.get(n.targets[0].id) == 1 and \
+                        n.targets[0].id not in params:
+                    alias[n.targets[0].id] = (n, n.value)
+            if not alias:
+                continue
+
+            class T(ast.NodeTransformer):
+                def visit_Assign(self, n):
+                    if any(n is a for a, _ in alias.values()):
+                        return None
+                    self.generic_visit(n)
+                    return n
+
+                def visit_Name(self, n):
+                    if isinstance(n.ctx, ast.Load) and n.id in alias:
+                        return ast.copy_location(
+                            _copy.deepcopy(alias[n.id][1]), n)
+                    return n
+            new_body = []
+            for b in m.body:
+                r = T().visit(b)
+                if r is not None:
+                    new_body.append(r)
+            m.body = new_body or [ast.Pass()]
+    ast.fix_missing_locations(tree)
+
+
 def _namedtuple_class(name, st):
     """``N = namedtuple('N', [fields])`` as a synthetic class whose
     initialiser stores its parameters in attributes of the same names."""
@@ -302,6 +466,8 @@ class Program:
         globs = {}
         _inline_simple_properties(tree)
         _hoist_walrus(tree)
+        _normalise_temporaries(tree)
+        _inline_attr_aliases(tree)
         for st in tree.body:
             if isinstance(st, ast.Import):
                 for a in st.names:
